@@ -39,7 +39,7 @@ EXHAUSTIVE = (
 ROWS = "ABCDEFGHIJKLMNOPQRSTUVWXYZ"
 MAX_ROWS, MAX_COLS = 26, 48
 SMALL = 14
-VIAS = ("array", "array_int", "array_bool", "ids", "ids2d", "evo_aspirate", "evo_dispense")
+VIAS = ("array", "array_int", "array_bool", "ids", "ids2d", "evo_aspirate", "evo_dispense", "array_F", "array_T")
 HEX = set("0123456789abcdefABCDEF")
 
 
@@ -87,7 +87,8 @@ def gen_case(rng, tier, index):
     else:
         rows, cols = rng.randint(1, MAX_ROWS), rng.randint(1, MAX_COLS)
     n = rows * cols
-    via = rng.choice(["array", "array", "array_int", "array_bool", "ids", "ids", "ids2d", "evo_aspirate", "evo_dispense"])
+    via = rng.choice(["array", "array", "array_int", "array_bool", "ids", "ids", "ids2d", "evo_aspirate", "evo_dispense",
+                      "array_F", "array_T"])
     if via.startswith("evo_"):
         c = rng.randrange(cols)
         k = rng.randint(1, min(8, rows))
@@ -115,7 +116,10 @@ def gen_case(rng, tier, index):
         k = rng.choice([2, 3, 7, 8])
         o = rng.randrange(k)
         sel = [w for w in range(n) if w % k == o]
-    return {"rows": rows, "cols": cols, "sel": sel, "via": via}
+    case = {"rows": rows, "cols": cols, "sel": sel, "via": via}
+    if rng.random() < 0.1:
+        case["npdims"] = rng.choice(["int64", "int32", "uint8"])  # dimensions taken from a table / from `array.shape` arithmetic
+    return case
 
 
 # ---------------------------------------------------------------------------------------------
@@ -137,10 +141,26 @@ def _produce(ctx, case):
     info = {}
     if via not in VIAS:
         raise ValueError(via)
+    if case.get("npdims"):
+        # the same dimensions as numpy integers
+        t = getattr(np, case["npdims"])
+        rows_arg, cols_arg = t(rows), t(cols)
+        ctx.count("dimensions_given_as_numpy_integers")
+    else:
+        rows_arg, cols_arg = rows, cols
     try:
-        if via in ("array", "array_int", "array_bool"):
-            dtype = {"array": float, "array_int": np.int64, "array_bool": bool}[via]
-            return evo_cmd.evo_get_selection(rows, cols, _array(rows, cols, sel, dtype)), None, info
+        if via in ("array", "array_int", "array_bool", "array_F", "array_T"):
+            dtype = {"array": float, "array_int": np.int64, "array_bool": bool, "array_F": float, "array_T": np.int64}[via]
+            a = _array(rows, cols, sel, dtype)
+            if via == "array_F":
+                a = np.asfortranarray(a)  # same values, column-major memory
+                ctx.count("selection_array_in_fortran_order")
+            elif via == "array_T":
+                t_ = np.zeros((cols, rows), dtype=dtype)
+                t_[...] = a.T
+                a = t_.T  # a transposed view (what `layout.T` of a (columns x rows) table gives)
+                ctx.count("selection_array_in_fortran_order")
+            return evo_cmd.evo_get_selection(rows_arg, cols_arg, a), None, info
         if via in ("ids", "ids2d"):
             ids = [wid(w % rows, w // rows) for w in sel]
             arg = list(ids)
@@ -157,7 +177,7 @@ def _produce(ctx, case):
                 d = max((x for x in range(1, int(k ** 0.5) + 1) if k % x == 0), default=1) if k else 1
                 arg = np.array(ids, dtype=str).reshape((d, k // d)) if k else np.zeros((0, 0), dtype=str)
                 info["ids_shape"] = list(arg.shape)
-            arr = evo_cmd.evo_make_selection_array(rows, cols, arg)
+            arr = evo_cmd.evo_make_selection_array(rows_arg, cols_arg, arg)
             want = _array(rows, cols, sel, float)
             ok = isinstance(arr, np.ndarray) and arr.shape == (rows, cols) and bool(np.array_equal(arr, want))
             ctx.check(
@@ -165,7 +185,7 @@ def _produce(ctx, case):
                 ok,
                 lambda: {"rows": rows, "columns": cols, "ids": ids, "returned": np.asarray(arr).tolist()},
             )
-            return evo_cmd.evo_get_selection(rows, cols, arr), None, info
+            return evo_cmd.evo_get_selection(rows_arg, cols_arg, arr), None, info
         if via in ("evo_aspirate", "evo_dispense"):
             ids = [wid(w % rows, w // rows) for w in sel]
             if case.get("trough"):
